@@ -25,6 +25,7 @@ import (
 	"io/fs"
 	"os"
 	"path/filepath"
+	"sort"
 	"strings"
 	"time"
 
@@ -164,20 +165,15 @@ func extractTarGzip(dirPath, dirName, gzPath, checksum string, buf []byte, prese
 // `prefix` parameter and is trimmed.
 func extractTarDirectory(dirPath, dirName string, r io.Reader, buf []byte, preservePermissions bool) error {
 	tr := tar.NewReader(r)
-	// mode recorded in the archive for the base directory itself
-	var baseMode *os.FileMode
+	// Directories are created writable for the owner, so that their entries
+	// can be created by an unprivileged user whatever their recorded mode
+	// is, and get the recorded mode after the last entry.
+	var dirs []dirMode
 	for {
 		header, err := tr.Next()
 		if err != nil {
 			if err == io.EOF {
-				if baseMode != nil && !preservePermissions {
-					// The base directory was created by the caller with the
-					// default permissions, so the mode recorded for it has
-					// not been applied by the creation of the directory as
-					// it is for every other directory of the archive.
-					return narrowDirMode(dirPath, *baseMode)
-				}
-				return nil
+				return restoreDirModes(dirs, preservePermissions)
 			}
 			return err
 		}
@@ -204,11 +200,9 @@ func extractTarDirectory(dirPath, dirName string, r io.Reader, buf []byte, prese
 			// no path element below the base directory may be a symbolic link,
 			// the directory itself included: it would be followed by the
 			// creation of the entries below it and by os.Chmod
-			err = ensureDirNoSymlink(dirPath, filePath, header.FileInfo().Mode())
-			if filePathRel == "." {
-				mode := header.FileInfo().Mode()
-				baseMode = &mode
-			}
+			mode := header.FileInfo().Mode()
+			err = ensureDirNoSymlink(dirPath, filePath, mode|0700)
+			dirs = append(dirs, dirMode{path: filePath, mode: mode})
 		case tar.TypeLink:
 			// NOTE: ORAS does not generate hard links when creating tarballs.
 			// If a hard link is found in the tarball, it will be extracted.
@@ -257,7 +251,7 @@ func extractTarDirectory(dirPath, dirName string, r io.Reader, buf []byte, prese
 		}
 
 		// Restore full mode bits
-		if preservePermissions && (header.Typeflag == tar.TypeReg || header.Typeflag == tar.TypeDir) {
+		if preservePermissions && header.Typeflag == tar.TypeReg {
 			if err := os.Chmod(filePath, header.FileInfo().Mode()); err != nil {
 				return err
 			}
@@ -314,25 +308,52 @@ func ensureLinkPath(baseAbs, baseRel, link, target string) (string, error) {
 	return target, nil
 }
 
-// narrowDirMode removes the permission bits that are not in mode from the
-// existing directory path and sets the sticky bit if mode has it, which is
-// what creating the directory with mode would have left. Permissions are never
-// widened.
-func narrowDirMode(path string, mode os.FileMode) error {
-	info, err := os.Lstat(path)
-	if err != nil {
-		return err
+// dirMode is the mode recorded in an archive for a directory.
+type dirMode struct {
+	path string
+	mode os.FileMode
+}
+
+// restoreDirModes gives the directories of an extracted archive their
+// recorded modes, deepest first; the last entry of a directory counts.
+// With exact set, the mode is applied as recorded; otherwise the permission
+// bits that are not recorded are removed from what the creation of the
+// directory left, which is what creating it with the recorded mode under the
+// umask would have left, and setuid, setgid and sticky are set as recorded.
+// Permissions are never widened.
+func restoreDirModes(dirs []dirMode, exact bool) error {
+	sort.SliceStable(dirs, func(i, j int) bool {
+		return strings.Count(dirs[i].path, string(filepath.Separator)) < strings.Count(dirs[j].path, string(filepath.Separator))
+	})
+	done := make(map[string]bool)
+	for i := len(dirs) - 1; i >= 0; i-- {
+		path, mode := dirs[i].path, dirs[i].mode
+		if done[path] {
+			continue
+		}
+		done[path] = true
+		info, err := os.Lstat(path)
+		if err != nil {
+			return err
+		}
+		if !info.IsDir() {
+			// replaced by a later entry
+			continue
+		}
+		const special = os.ModeSetuid | os.ModeSetgid | os.ModeSticky
+		want := mode & (os.ModePerm | special)
+		if !exact {
+			cur := info.Mode() & (os.ModePerm | special)
+			want = cur.Perm()&mode.Perm() | cur&special | mode&special
+			if want == cur {
+				continue
+			}
+		}
+		if err := os.Chmod(path, want); err != nil {
+			return err
+		}
 	}
-	if !info.IsDir() {
-		return nil
-	}
-	const special = os.ModeSetuid | os.ModeSetgid | os.ModeSticky
-	cur := info.Mode() & (os.ModePerm | special)
-	want := cur.Perm()&mode.Perm() | cur&special | mode&os.ModeSticky
-	if want == cur {
-		return nil
-	}
-	return os.Chmod(path, want)
+	return nil
 }
 
 // removeSymlink removes path if it is a symbolic link.
